@@ -105,13 +105,12 @@ pub fn run(ctx: &Ctx, reg: &Registry) -> i32 {
                 for (j, (tag, m)) in muts.iter().enumerate() {
                     run_both(&mut acc, reg, s, &Case { payload: m.clone(), faults: vec![tag] });
                     acc.count("systematic_single_mutations");
-                    // faults placed after other faults: a second mutation of the mutated payload
-                    let m2 = mutations(m);
-                    if !m2.is_empty() {
-                        let k = (j * 7919 + b as usize * 31) % m2.len();
-                        run_both(&mut acc, reg, s, &Case { payload: m2[k].1.clone(), faults: vec![tag, m2[k].0] });
-                        acc.count("systematic_double_mutations");
-                    }
+                    // faults placed after other faults: a second fault (an intruder at another position) on top
+                    let paths = all_paths(m);
+                    let k = (j * 7919 + b as usize * 31) % paths.len();
+                    let m2 = replace_at(m, &paths[k], &intruders()[(j + k) % 8]);
+                    run_both(&mut acc, reg, s, &Case { payload: m2, faults: vec![tag, "intruder"] });
+                    acc.count("systematic_double_mutations");
                 }
             }
             for body in bodies(&reg.defs, s.ty()) {
